@@ -37,14 +37,24 @@ Lemma geq_cov_length g h : geq_cov g h -> length (gnodes g) = length (gnodes h).
 Proof. intros [H _]. apply Permutation_length in H. unfold cov_nodes in H. rewrite !map_length in H. exact H. Qed.
 
 (* ---------------- simple graphs ---------------- *)
-Definition simple (g : graph) : Prop :=
-  NoDup (node_ids g) /\ forall c1 c2, In c1 (cov_edges g) -> In c2 (cov_edges g) -> fst c1 = fst c2 -> c1 = c2.
+Definition simple (g : graph) : Prop := NoDup (node_ids g) /\ NoDup (map fst (cov_edges g)).
+
+Lemma NoDup_map_key_inj {A B} (f : A -> B) l : NoDup (map f l) -> forall x y, In x l -> In y l -> f x = f y -> x = y.
+Proof.
+  induction l as [|a l IH]; simpl; intros Hnd x y Hx Hy E; [contradiction|].
+  inversion Hnd as [|? ? Ha Hnd']; subst.
+  destruct Hx as [<-|Hx], Hy as [<-|Hy]; auto.
+  - exfalso. apply Ha. rewrite E. apply in_map. auto.
+  - exfalso. apply Ha. rewrite <- E. apply in_map. auto.
+Qed.
+Lemma simple_keys g : simple g -> forall c1 c2, In c1 (cov_edges g) -> In c2 (cov_edges g) -> fst c1 = fst c2 -> c1 = c2.
+Proof. intros [_ H]. apply NoDup_map_key_inj. exact H. Qed.
 
 Lemma simple_geq_cov g h : geq_cov g h -> simple g -> simple h.
 Proof.
   intros Hq [H1 H2]. split.
   - eapply Permutation_NoDup; [apply geq_cov_ids; exact Hq|exact H1].
-  - destruct Hq as [_ Hq]. intros c1 c2 I1 I2. apply H2; eapply Permutation_in; try apply Permutation_sym; eauto.
+  - destruct Hq as [_ Hq]. eapply Permutation_NoDup; [apply Permutation_map; exact Hq|exact H2].
 Qed.
 
 Lemma find_edge_app {B} u v (l1 l2 : list (N * N * B)) :
@@ -96,13 +106,20 @@ Proof.
   - intros (a & b & x & I & E). exists (a, b, x). auto.
 Qed.
 
-Lemma wf_simple g : wf g -> simple g.
+Lemma wf_keys_nodup (l : list (N * N * eattr)) :
+  (forall l1 a b x l2, l = l1 ++ (a, b, x) :: l2 -> find_edge a b l1 = None /\ find_edge a b l2 = None) ->
+  NoDup (map fst (map cove l)).
 Proof.
-  intros Hw. split; [apply Hw|].
-  intros c1 c2 I1 I2 E. apply in_cov_edges in I1, I2.
-  destruct I1 as (a & b & x & I1 & ->), I2 as (c & d & y & I2 & ->). simpl in E.
-  pose proof (wf_same_pair g a b x c d y Hw I1 I2 (minmax_pair _ _ _ _ E)) as H. inversion H; subst. reflexivity.
+  induction l as [|[[a b] x] l IH]; intros H; simpl; constructor.
+  - destruct (H [] a b x l eq_refl) as [_ Hn]. intro I. rewrite map_map in I. apply in_map_iff in I.
+    destruct I as ([[c d] y] & E & I). simpl in E.
+    apply (find_edge_none _ _ _ _ _ _ Hn I). symmetry in E. apply minmax_pair in E.
+    destruct E as [[-> ->]|[-> ->]]; auto.
+  - apply IH. intros l1 a' b' x' l2 E. destruct (H ((a, b, x) :: l1) a' b' x' l2) as [H1 H2]; [rewrite E; reflexivity|].
+    split; auto. simpl in H1. destruct ((N.eqb a a' && N.eqb b b') || (N.eqb a b' && N.eqb b a')); [discriminate|auto].
 Qed.
+Lemma wf_simple g : wf g -> simple g.
+Proof. intros Hw. split; [apply Hw|]. apply wf_keys_nodup. apply Hw. Qed.
 
 (* ---------------- relabelling ---------------- *)
 Definition rn (f : N -> N) (c : N * (list N * Z * bool * Z)) := (f (fst c), snd c).
@@ -140,20 +157,27 @@ Proof.
   - apply IH. intros a b Ha Hb. apply Hi; right; auto.
 Qed.
 
+Lemma NoDup_map_transfer {A B C} (k0 : A -> B) (k : A -> C) l :
+  (forall x y, In x l -> In y l -> k x = k y -> k0 x = k0 y) -> NoDup (map k0 l) -> NoDup (map k l).
+Proof.
+  induction l as [|a l IH]; simpl; intros H Hnd; constructor; inversion Hnd as [|? ? Ha Hnd']; subst.
+  - intro I. apply in_map_iff in I. destruct I as (y & E & I). apply Ha.
+    rewrite <- (H y a); auto. apply in_map. exact I.
+  - apply IH; auto.
+Qed.
 Lemma simple_relabel f g : wf g -> C08_Spec.inj_on f (node_ids g) -> simple (relabel f g).
 Proof.
   intros Hw Hi. split.
   - rewrite node_ids_relabel. apply NoDup_map_inj_on'; auto. apply Hw.
-  - intros c1 c2 I1 I2 E. rewrite cov_edges_relabel in I1, I2.
-    apply in_map_iff in I1, I2. destruct I1 as (d1 & <- & I1), I2 as (d2 & <- & I2).
-    apply in_cov_edges in I1, I2.
-    destruct I1 as (a & b & x & I1 & ->), I2 as (c & d & y & I2 & ->).
-    destruct Hw as (Hnd & Hend & Hu).
+  - rewrite cov_edges_relabel. unfold cov_edges. rewrite !map_map.
+    pose proof (proj2 (wf_simple g Hw)) as Hk. unfold cov_edges in Hk. rewrite map_map in Hk.
+    revert Hk. apply NoDup_map_transfer. intros [[a b] x] [[c d] y] I1 I2 E.
+    destruct Hw as (_ & Hend & _).
     destruct (Hend _ _ _ I1) as (Ha & Hb & _), (Hend _ _ _ I2) as (Hc & Hd & _).
-    assert (P : (a = c /\ b = d) \/ (a = d /\ b = c)).
-    { rewrite !re_minmax in E. cbn [fst] in E.
-      apply minmax_pair in E. destruct E as [[E1 E2]|[E1 E2]]; [left|right]; split; apply Hi; auto. }
-    pose proof (wf_same_pair g a b x c d y (conj Hnd (conj Hend Hu)) I1 I2 P) as H. inversion H; subst. reflexivity.
+    cbn [cove] in *. rewrite !re_minmax in E. cbn [fst] in *.
+    apply minmax_pair in E.
+    assert (P : (a = c /\ b = d) \/ (a = d /\ b = c)) by (destruct E as [[E1 E2]|[E1 E2]]; [left|right]; split; apply Hi; auto).
+    destruct P as [[-> ->]|[-> ->]]; [reflexivity|]. rewrite N.min_comm, N.max_comm. reflexivity.
 Qed.
 
 (* ---------------- rebuilding in a node order ---------------- *)
